@@ -5,6 +5,18 @@ checks = {
  "C02": dict(level="exploration", technique="bounded exhaustive enumeration of typed strings x modes x meta settings x delivery on the real Readline loop (session engine over a pty)",
    text="Every string up to the stated length over a 16-rune alphabet covering ASCII, Latin-1, BMP, CJK wide, combining and astral runes is typed into the real Readline loop in emacs and vi-insert mode under three meta settings and two deliveries; the returned line must equal the typed text and every intermediate buffer must be a prefix of it. Exhaustive within the bound; nothing is sampled.",
    note="Trusts the harness pty/gate (keys are delivered exactly as planned) and scopes non-ASCII to convert-meta off (Latin-1 to output-meta on) as the statement does.", ref="7 C02"),
+ "C10": dict(level="fault_enumeration", engine="pure", technique="exhaustive crash-point enumeration: every byte offset of an append truncated on a real file, reopen, append, reopen, against a list reference model",
+   text="All write histories up to the stated length over a 15-line alphabet (quotes, newlines, controls, multi-byte, U+2028, >64 KiB, blank, duplicates, JSON look-alikes) are written through the real file-backed history; the file is reopened and compared with the reference list; then every byte offset of the last append (thorough: of every append) is used as a crash point: truncate, reopen, append through a fresh instance, reopen.",
+   note="Crash model = a byte prefix of a single O_APPEND write survives; fsync/power-loss reordering is outside the statement. Offsets inside the 70000-byte record are a stated subset.", ref="7 C10"),
+ "C12": dict(level="exploration", engine="pure", technique="bounded exhaustive enumeration of token strings x parser options x handler kinds x cyclic include graph on the real parser; count-based include budget",
+   text="Every token string up to the stated length over a 38-token alphabet containing every lexical ingredient of the grammar is parsed by the real parser under 10 option/handler combinations (the deepest level under 2) with a handler serving a cyclic include graph; the parse must return, must not panic and must not ask for more than 1000 files.",
+   note="A handler whose Get returns unsupported types is excluded (documented programmer error). Non-termination is decided by an include-count budget and a 60 s per-input watchdog.", ref="7 C12"),
+ "C13": dict(level="exploration", engine="pure", technique="exhaustive enumeration of all programs of a grammar up to n statements x 12 (mode,term,app) settings, real parser vs reference evaluator written in Go",
+   text="Every well-formed program of the $if/$else/$endif/set keymap/set var/bind/macro/comment/$include grammar with at most n statements and nesting <= 3 is parsed under each of 12 settings into a fresh Config, and Binds and Vars are compared with a 40-line reference evaluator (a directive is active iff every enclosing branch is the taken one). A second evaluator modelling exactly the known defect recognises that finding narrowly.",
+   note="Trusts the reference evaluator; term= compared on exact names; included files contain no binds/keymap directives.", ref="7 C13"),
+ "C19": dict(level="exploration", engine="pure", technique="exhaustive enumeration of key sequences (all length-1 and length-2 over 262 runes, length-3 over 28 special runes, all default binds) through Escape/EscapeMacro/Unescape",
+   text="Unescape(Escape(s)) == s and Unescape(EscapeMacro(s)) == s for every enumerated sequence and every key sequence of every default keymap.",
+   note="Printable Unicode beyond U+00FF represented by six runes; dump round trip through the real dump commands is part (c), see DESIGN.md.", ref="7 C19"),
 }
 na = {
 }
@@ -24,7 +36,8 @@ def build():
        "add_only": True,
      },
      "engines": [
-       {"name":"session","path":"internal/harness","serves_properties":sorted(k for k in checks),"kind_free_text":"real library over a harness-owned pty; gated key reader; VT emulator answers cursor queries; explicit-state BFS / bounded products / deviation enumeration over executions"},
+       {"name":"pure","path":"checks","serves_properties":sorted(k for k in checks if checks[k].get("engine")=="pure"),"kind_free_text":"in-process exhaustive enumerators calling the real parser / escaper / file history, with reference models in Go"},
+       {"name":"session","path":"internal/harness","serves_properties":sorted(k for k in checks if checks[k].get("engine","session")=="session"),"kind_free_text":"real library over a harness-owned pty; gated key reader; VT emulator answers cursor queries; explicit-state BFS / bounded products / deviation enumeration over executions"},
      ],
      "checks": [],
      "not_applicable": [{"property_id":k,"reason":v} for k,v in sorted(na.items())],
